@@ -235,8 +235,10 @@ func refreshSession(c *hx.Ctx, k int, r *rand.Rand, dur time.Duration) string {
 	inRound := map[uint16]bool{}
 	sinceRoundStart := 0
 	tmplBody := map[uint16][]byte{}
+	minRec := map[uint16]int{} // shortest record per template: set padding is shorter (refipfix.SameBody)
 	for _, t := range tmpls {
 		tmplBody[t.tid] = refipfix.EncodeTemplateRecord(t.tid, gen.Fields(t.elems))
+		minRec[t.tid] = refipfix.MinRecordLen(gen.Widths(t.elems))
 	}
 	for i, dg := range dgs {
 		m, err := refipfix.ParseMessage(dg.Data)
@@ -255,7 +257,7 @@ func refreshSession(c *hx.Ctx, k int, r *rand.Rand, dur time.Duration) string {
 			if !known {
 				return fail("unknown-template-retransmitted", fmt.Sprintf("template %d was never sent by the application", tid), nil)
 			}
-			if !bytes.Equal(m.Body, want) {
+			if !refipfix.SameBody(m.Body, want, 4) {
 				return fail("refresh-differs", fmt.Sprintf("datagram %d: template %d differs from the template the application sent", i, tid), fmt.Sprintf("%x vs %x", m.Body, want))
 			}
 			// the application's messages arrive in the order it sent them (one socket, loopback):
@@ -282,9 +284,9 @@ func refreshSession(c *hx.Ctx, k int, r *rand.Rand, dur time.Duration) string {
 		if ai >= len(sends) {
 			return fail("extra-data-datagram", fmt.Sprintf("datagram %d is a data message the application did not send", i), nil)
 		}
-		if sends[ai].kind != "D" || m.SetID != sends[ai].tid || !bytes.Equal(m.Body, sends[ai].body) {
+		if sends[ai].kind != "D" || m.SetID != sends[ai].tid || !refipfix.SameBody(m.Body, sends[ai].body, minRec[m.SetID]) {
 			for j2 := ai + 1; j2 < len(sends) && j2 < ai+50; j2++ { // a lost datagram shows as a later send matching
-				if sends[j2].kind == "D" && m.SetID == sends[j2].tid && bytes.Equal(m.Body, sends[j2].body) {
+				if sends[j2].kind == "D" && m.SetID == sends[j2].tid && refipfix.SameBody(m.Body, sends[j2].body, minRec[m.SetID]) {
 					c.Inconclusive(fmt.Sprintf("session %d: a datagram was lost on loopback", k))
 					return ""
 				}
@@ -531,7 +533,11 @@ func backpressureSession(c *hx.Ctx, k int, r *rand.Rand) {
 	}
 	for i, m := range msgs {
 		pm, err := refipfix.ParseMessage(m)
-		if err != nil || !bytes.Equal(pm.Body, want[i]) {
+		mr := 4
+		if i > 0 {
+			mr = refipfix.MinRecordLen(gen.Widths(t.elems))
+		}
+		if err != nil || !refipfix.SameBody(pm.Body, want[i], mr) {
 			c.Violation(k, "stream-corrupt-under-backpressure", fmt.Sprintf("message %d at the peer is not the application's %d-th send (%v)", i, i, err), nil)
 			return
 		}
@@ -596,7 +602,7 @@ func closeSession(c *hx.Ctx, k int, r *rand.Rand, j int) {
 	}
 	t := tmpl{tid: s.EP.NewTemplateID(), elems: []regtable.Elem{lib.CustomElems[11], lib.CustomElems[8]}}
 	set, _ := lib.TemplateSet(t.tid, t.elems, 0)
-	n0, err := s.EP.SendSet(set)
+	_, err = s.EP.SendSet(set)
 	if err != nil {
 		c.Violation(k, "send-error", err.Error(), nil)
 		s.Close()
@@ -675,12 +681,14 @@ func closeSession(c *hx.Ctx, k int, r *rand.Rand, j int) {
 	if proto == "tcp" {
 		s.Conn.WaitEOF(10 * time.Second)
 		stream := s.Conn.Bytes()
-		if len(stream) < n0 {
-			c.Violation(k, "stream-short", "the peer did not even receive the template", nil)
+		msgs, tail := refipfix.Frame(stream)
+		if pm, err := refipfix.ParseMessage(append(msgs, nil)[0]); err != nil || pm.SetID != 2 ||
+			!refipfix.SameBody(pm.Body, refipfix.EncodeTemplateRecord(t.tid, gen.Fields(t.elems)), 4) {
+			c.Violation(k, "stream-short", fmt.Sprintf("the first message at the peer is not the template the application sent (%v)", err), nil)
 			s.Close()
 			return
 		}
-		msgs, tail := refipfix.Frame(stream[n0:])
+		msgs = msgs[1:] // framed at the messages' own length fields, not at the count SendSet reported
 		for i, m := range msgs {
 			pm, err := refipfix.ParseMessage(m)
 			if err != nil {
@@ -689,12 +697,12 @@ func closeSession(c *hx.Ctx, k int, r *rand.Rand, j int) {
 				return
 			}
 			if i < len(acked) {
-				if !bytes.Equal(pm.Body, acked[i]) {
+				if !refipfix.SameBody(pm.Body, acked[i], refipfix.MinRecordLen(gen.Widths(t.elems))) {
 					c.Violation(k, "stream-mismatch", fmt.Sprintf("message %d at the peer is not the %d-th acknowledged send", i, i), nil)
 					s.Close()
 					return
 				}
-			} else if i == len(acked) && firstFailed != nil && bytes.Equal(pm.Body, firstFailed) {
+			} else if i == len(acked) && firstFailed != nil && refipfix.SameBody(pm.Body, firstFailed, refipfix.MinRecordLen(gen.Widths(t.elems))) {
 				// the failed send made it out completely: acceptable (at most one)
 			} else {
 				c.Violation(k, "bytes-after-acknowledged", fmt.Sprintf("the peer holds %d messages, the application had %d acknowledged sends", len(msgs), len(acked)), nil)
